@@ -6,7 +6,7 @@ Statements only; proofs are references to Lemmas/Filter*.  Model: Ldap3V/Model/F
 `Filter.parse : Bytes → Option Tag` is `ldap3::parse_filter`; the BER of the result is
 `encode t.toTlv` (C07).  `GLib f s`: the string `s` denotes the tree `f` in the library's language
 (RFC 4515 grammar + bare item + `(&)` `(|)` + a bare number as attribute type + any octet ≥ 0x80
-in values); `GRfc`: RFC 4515 as written (+ the documented extensions), over UTF-8 text.
+in values; the keyword `dn` in any case); `GRfc`: RFC 4515 as written (+ the documented extensions), over UTF-8 text; `GRfc ⊆ GLib`.
 -/
 import Ldap3V.Lemmas.FilterPrint
 import Ldap3V.Lemmas.FilterTlv
@@ -21,28 +21,23 @@ theorem C08_sound (s : Bytes) (t : Tag) (h : Filter.parse s = some t) :
     ∃ f, GLib f s ∧ t.toTlv = toTlv f :=
   Filter.parse_sound ((Filter.parse_some_iff s t).mp h)
 
-/-- Completeness for the library's language (a superset of RFC 4515 read with a lower-case `dn`):
+/-- Completeness for the library's language (a superset of RFC 4515):
 every string of the language is accepted and compiles to the BER filter of its tree. -/
 theorem C08_complete_lib (f : Filter) (s : Bytes) (h : GLib f s) :
     (Filter.parse s).map Tag.toTlv = some (toTlv f) := by
   obtain ⟨t, ht, htl⟩ := Filter.parse_complete h
   rw [(Filter.parse_some_iff s t).mpr ht]; simp [htl]
 
-/-- RFC 4515 (read with the literal `"dn"` in lower case) is contained in the library's language. -/
-theorem C08_rfc_in_lib_partial (f : Filter) (s : Bytes) (h : GRfcLowerDn f s) : GLib f s :=
-  rfcLowerDn_in_lib h
+/-- RFC 4515 as written (the literal `"dn"` in any case, RFC 5234 §2.3), with the documented
+extensions, is contained in the library's language. -/
+theorem C08_rfc_in_lib (f : Filter) (s : Bytes) (h : GRfc f s) : GLib f s := rfc_in_lib h
 
-/- Full statement (FALSE on the current tree, see `C08_dn_keyword_case_witness`):
-     theorem C08_complete (f : Filter) (s : Bytes) (h : GRfc f s) :
-       (Filter.parse s).map Tag.toTlv = some (toTlv f)
-   `GRfc` reads the literal "dn" of `dnattrs = COLON "dn"` case-insensitively, as RFC 5234 §2.3
-   prescribes; filter.rs matches `tag(b":dn")` exactly.  Proved instead: the statement for
-   `GRfcLowerDn`, i.e. with the excluded inputs = strings that spell the keyword `DN`, `Dn` or `dN`. -/
-/-- Every RFC 4515 string (with `:dn` in lower case), plus the documented extensions, is accepted
-and compiles to the BER filter of its syntax tree. -/
-theorem C08_complete_partial (f : Filter) (s : Bytes) (h : GRfcLowerDn f s) :
+/-- Every filter string of the RFC 4515 grammar, plus the documented extensions (an item without
+outer parentheses, the empty `(&)` and `(|)`), is accepted and compiles to the BER filter of its
+syntax tree. -/
+theorem C08_complete (f : Filter) (s : Bytes) (h : GRfc f s) :
     (Filter.parse s).map Tag.toTlv = some (toTlv f) :=
-  C08_complete_lib f s (rfcLowerDn_in_lib h)
+  C08_complete_lib f s (rfc_in_lib h)
 
 /-- The strings of the library's language are unambiguous: a string denotes one tree. -/
 theorem C08_unambiguous (f f' : Filter) (s : Bytes) (h : GLib f s) (h' : GLib f' s) : f = f' := by
@@ -67,8 +62,9 @@ theorem C08_total (s : Bytes) : Filter.parseO s ≠ .panic ∧ Filter.parseMvO s
   cases h : Filter.parseO s <;> simp_all [Filter.Outcome.toOption]
 
 /-- Every accepted string means what it says: decoding the BER (strict RFC 4511 decoder) gives a
-well-formed tree whose canonical RFC 4515 print is the input up to escaping (`normTop`: every `\hh`
-replaced by the canonical rendering of its octet, parentheses supplied for a bare item). -/
+well-formed tree whose canonical RFC 4515 print is the input up to escaping and the spelling of
+the `dn` keyword (`normTop`: the keyword in lower case where it is the keyword, every `\hh` replaced
+by the canonical rendering of its octet, parentheses supplied for a bare item). -/
 theorem C08_means_what_it_says (s : Bytes) (t : Tag) (h : Filter.parse s = some t) :
     ∃ f, ofTlv t.toTlv = some f ∧ wf f = true ∧ print f = normTop s := by
   obtain ⟨f, hg, ht⟩ := C08_sound s t h
@@ -150,49 +146,48 @@ theorem C08_rejects_adjacent_asterisks (s : Bytes) (h : noAdjacentStars false s 
     Filter.parse s = none :=
   Filter.reject_of_inv (fun _ _ hg => Filter.noAdjacentStars_GLib hg) s h
 
-/-! ### the finding: the `dn` keyword is matched case-sensitively -/
-
-/-- `(cn:Dn:2.4.6:=x)` -/
-def C08_witness : Bytes :=
-  [0x28, 0x63, 0x6E, 0x3A, 0x44, 0x6E, 0x3A, 0x32, 0x2E, 0x34, 0x2E, 0x36, 0x3A, 0x3D, 0x78, 0x29]
-
-/-- The full completeness statement fails at `(cn:Dn:2.4.6:=x)`: the string is in the RFC 4515
-language (type `cn`, `dnattrs`, matching rule `2.4.6`, value `x`) and is rejected. -/
-theorem C08_dn_keyword_case_witness :
-    GRfc (.ext (some [0x32, 0x2E, 0x34, 0x2E, 0x36]) (some [0x63, 0x6E]) [0x78] true) C08_witness ∧
-    Filter.parse C08_witness = none := by
-  refine ⟨⟨Or.inl ?_, by decide⟩, ?_⟩
-  · simp only [G]
-    refine ⟨_, GItem.extAttr (a := [0x63, 0x6E]) (kw := [0x44, 0x6E]) (sv := [0x78]) ?_ (fun _ => by decide) ?_
-      (fun h => by cases h) (.lit (by decide) .nil), rfl⟩
-    · exact ⟨[0x63, 0x6E], [], Or.inl (by decide), by simp, rfl⟩
-    · intro r hr
-      cases hr
-      exact Or.inr ⟨[0x32], [[0x34], [0x36]], by decide, by decide, Or.inr (by simp), rfl⟩
-  · have : (Filter.parse C08_witness).isNone = true := by decide
-    cases h : Filter.parse C08_witness with
-    | none => rfl
-    | some t => rw [h] at this; cases this
-
-/-- `(cn:DN:=x)` is accepted, but as the matching rule named `DN` without `dnAttributes`. -/
-theorem C08_dn_keyword_case_witness2 :
-    (Filter.parse [0x28, 0x63, 0x6E, 0x3A, 0x44, 0x4E, 0x3A, 0x3D, 0x78, 0x29]).map Tag.toTlv =
-      some (toTlv (.ext (some [0x44, 0x4E]) (some [0x63, 0x6E]) [0x78] false)) := by
-  apply C08_complete_lib
-  refine Or.inl ?_
-  simp only [G]
-  refine ⟨_, GItem.extAttr (a := [0x63, 0x6E]) (kw := []) (sv := [0x78]) (rule := some [0x44, 0x4E]) ?_
-    (fun h => by cases h) ?_ (fun _ r hr => by cases hr; decide) (.lit (by decide) .nil), rfl⟩
-  · exact ⟨[0x63, 0x6E], [], Or.inl (by decide), by simp, rfl⟩
-  · intro r hr; cases hr; exact Or.inl (by decide)
-
 /-! ### non-vacuity (tests, labelled as such) -/
 
+/-- `(cn:Dn:2.4.6:=x)` (rejected before the fix of F19) is in the RFC 4515 language: type `cn`,
+`dnattrs` spelled `Dn`, matching rule `2.4.6`, value `x` … -/
+def C08_dnCase : Bytes :=
+  [0x28, 0x63, 0x6E, 0x3A, 0x44, 0x6E, 0x3A, 0x32, 0x2E, 0x34, 0x2E, 0x36, 0x3A, 0x3D, 0x78, 0x29]
+
+example : GRfc (.ext (some [0x32, 0x2E, 0x34, 0x2E, 0x36]) (some [0x63, 0x6E]) [0x78] true) C08_dnCase := by
+  refine ⟨Or.inl ?_, by decide⟩
+  simp only [G]
+  refine ⟨_, GItem.extAttr (a := [0x63, 0x6E]) (kw := [0x44, 0x6E]) (sv := [0x78]) ?_ (fun _ => by decide) ?_
+    (fun h => by cases h) (.lit (by decide) .nil), rfl⟩
+  · exact ⟨[0x63, 0x6E], [], Or.inl (by decide), by simp, rfl⟩
+  · intro r hr
+    cases hr
+    exact Or.inr ⟨[0x32], [[0x34], [0x36]], by decide, by decide, Or.inr (by simp), rfl⟩
+
+/-- … and the model compiles it, `(cn:DN:=x)`, `(cn:DNfoo:=x)` and `(:DN:=x)` as the RFC reads them:
+dnAttributes TRUE; dnAttributes TRUE; rule `DNfoo`; rule `DN` -/
+example : (Filter.parse C08_dnCase).map (fun t => encode t.toTlv) =
+    some [0xA9, 0x11, 0x81, 0x05, 0x32, 0x2E, 0x34, 0x2E, 0x36, 0x82, 0x02, 0x63, 0x6E, 0x83, 0x01, 0x78,
+      0x84, 0x01, 0xFF] := by decide
+example : (Filter.parse [0x28, 0x63, 0x6E, 0x3A, 0x44, 0x4E, 0x3A, 0x3D, 0x78, 0x29]).map (fun t => encode t.toTlv) =
+    some [0xA9, 0x0A, 0x82, 0x02, 0x63, 0x6E, 0x83, 0x01, 0x78, 0x84, 0x01, 0xFF] := by decide
+example : (Filter.parse [0x28, 0x63, 0x6E, 0x3A, 0x44, 0x4E, 0x66, 0x6F, 0x6F, 0x3A, 0x3D, 0x78, 0x29]).map
+    (fun t => encode t.toTlv) =
+    some [0xA9, 0x0E, 0x81, 0x05, 0x44, 0x4E, 0x66, 0x6F, 0x6F, 0x82, 0x02, 0x63, 0x6E, 0x83, 0x01, 0x78] := by decide
+example : (Filter.parse [0x28, 0x3A, 0x44, 0x4E, 0x3A, 0x3D, 0x78, 0x29]).map (fun t => encode t.toTlv) =
+    some [0xA9, 0x07, 0x81, 0x02, 0x44, 0x4E, 0x83, 0x01, 0x78] := by decide
+/-- the normal form lowers the keyword only: `(cn:DN:=:DN:)` ↦ `(cn:dn:=:DN:)`, `(:DN:=x)` unchanged -/
+example : normTop [0x28, 0x63, 0x6E, 0x3A, 0x44, 0x4E, 0x3A, 0x3D, 0x3A, 0x44, 0x4E, 0x3A, 0x29] =
+    [0x28, 0x63, 0x6E, 0x3A, 0x64, 0x6E, 0x3A, 0x3D, 0x3A, 0x44, 0x4E, 0x3A, 0x29] ∧
+    normTop [0x28, 0x3A, 0x44, 0x4E, 0x3A, 0x3D, 0x78, 0x29] = [0x28, 0x3A, 0x44, 0x4E, 0x3A, 0x3D, 0x78, 0x29] := by
+  decide
+
+
+
 /-- `(&(a=v)(b=x)(!(c=y)))` is in the RFC language -/
-example : GRfcLowerDn (.and [.eq [0x61] [0x76], .eq [0x62] [0x78], .not (.eq [0x63] [0x79])])
+example : GRfc (.and [.eq [0x61] [0x76], .eq [0x62] [0x78], .not (.eq [0x63] [0x79])])
     [0x28, 0x26, 0x28, 0x61, 0x3D, 0x76, 0x29, 0x28, 0x62, 0x3D, 0x78, 0x29, 0x28, 0x21, 0x28, 0x63, 0x3D, 0x79,
      0x29, 0x29, 0x29] := by
-  have ad : ∀ c : UInt8, isDescr [c] = true → IsAttrDesc .rfcLowerDn [c] :=
+  have ad : ∀ c : UInt8, isDescr [c] = true → IsAttrDesc .rfc [c] :=
     fun c h => ⟨[c], [], Or.inl h, by simp, rfl⟩
   refine ⟨Or.inl ?_, by decide⟩
   simp only [G, GL]
